@@ -353,3 +353,67 @@ func VxC14_LogSpecialValues() {
 		vx.Assert(h.high == high0+1, "values at or above the last edge count as over-flow")
 	}
 }
+
+
+// vxExpected: the rank-g quantile of an identity-binned histogram under the 0-based (base=0) or
+// 1-based (base=1) reading of "the g-th smallest sample": NaN in the under/over-flow, otherwise
+// bin + (rank within bin)/count. ok=false where the reading names no sample (1-based, g=0).
+func vxExpected(h vxIdHist, total, g uint, base uint) (val float64, ok bool) {
+	if g < base {
+		return 0, false
+	}
+	idx := g - base // 0-based index of the sample the reading names
+	if idx >= total {
+		return 0, false
+	}
+	if idx < h.under || idx >= total-h.over {
+		return math.NaN(), true
+	}
+	r := g - h.under // rank offset carried into the bins (0-based: index; 1-based: count)
+	for b, c := range h.counts {
+		if (base == 0 && r < c) || (base == 1 && r <= c) {
+			return float64(b) + float64(r)/float64(c), true
+		}
+		r -= c
+	}
+	return math.NaN(), true
+}
+
+func vxSame(a, b float64) bool { return a == b || (math.IsNaN(a) && math.IsNaN(b)) }
+
+// VxC14_QuantileConsistent: whichever of the two readings of "the floor(q*total)-th smallest sample"
+// (ranks from 0 or from 1) an implementation follows, it follows it for every q: for any two
+// levels q1 <= q2 both results agree with the same reading, interpolated by rank within the bin.
+// C14: "returns a value inside the bin holding that sample, interpolated by rank within the bin; it returns NaN when that
+// sample is in the under- or over-flow".
+//
+//vx:mode R
+//vx:solver z3
+//vx:maxdec 100000
+//vx:bound 1..3 bins, counters 0..1 (quick) / 0..2 (thorough), under/over 0..1; any reals 0 <= q1 <= q2 <= 1 (the solver partitions [0,1]^2 into pairs of rank classes)
+func VxC14_QuantileConsistent() {
+	h, _, total := vxSmallHist(3, 1+vx.Tier(), 1)
+	q, q2 := vx.Float("q"), vx.Float("q2")
+	vx.Assume(vx.And(q >= 0, q <= q2))
+	vx.Assume(q2 <= 1)
+	g := uint(vx.Concretize(int(uint(float64(total) * q))))
+	g2 := uint(vx.Concretize(int(uint(float64(total) * q2))))
+	if g >= total || g2 >= total {
+		return // rank = total names no sample in either reading: only "no panic" is required (VxC14_QuantileValue)
+	}
+	var got, got2 float64
+	if vx.Panics(func() {
+		got = HistogramQuantile(h, (float64(g)+0.5)/float64(total))
+		got2 = HistogramQuantile(h, (float64(g2)+0.5)/float64(total))
+	}) {
+		vx.Assert(false, "HistogramQuantile does not panic for q in [0,1]")
+		return
+	}
+	a0, ok0 := vxExpected(h, total, g, 0)
+	b0, ok0b := vxExpected(h, total, g2, 0)
+	a1, ok1 := vxExpected(h, total, g, 1)
+	b1, ok1b := vxExpected(h, total, g2, 1)
+	zero := (!ok0 || vxSame(got, a0)) && (!ok0b || vxSame(got2, b0))
+	one := (!ok1 || vxSame(got, a1)) && (!ok1b || vxSame(got2, b1))
+	vx.Assert(zero || one, "both quantiles follow the same reading of the rank (0-based or 1-based), interpolated by rank within the bin")
+}
